@@ -18,6 +18,13 @@ type handMcEvents struct{ ch chan event.Event }
 func (c *handMcEvents) Send(e event.Event) { c.ch <- e }
 
 func handMemcachedSet(t *testing.T, segments ...string) string {
+	payload, _ := handMemcachedSetEvents(t, segments...)
+	return payload
+}
+
+// handMemcachedSetEvents returns the payload of the memcached-set event and the commands reported up to
+// and including a final "get k".
+func handMemcachedSetEvents(t *testing.T, segments ...string) (string, []string) {
 	t.Helper()
 	evs := &handMcEvents{ch: make(chan event.Event, 16)}
 	s := Memcached(WithChannel(evs))
@@ -44,22 +51,33 @@ func handMemcachedSet(t *testing.T, segments ...string) string {
 		}
 		time.Sleep(20 * time.Millisecond)
 	}
+	payload := ""
+	var commands []string
 	for {
 		select {
 		case e := <-evs.ch:
 			if e.Get("type") == "memcached-set" {
-				return e.Get("payload")
+				payload = e.Get("payload")
+			}
+			if e.Get("type") == "memcached-command" {
+				commands = append(commands, e.Get("memcached.command"))
+				if e.Get("memcached.command") == "get k" {
+					return payload, commands
+				}
 			}
 		case <-time.After(2 * time.Second):
-			t.Fatalf("no memcached-set event for segments %q", segments)
+			t.Fatalf("no final get event for segments %q (commands so far %q)", segments, commands)
 		}
 	}
 }
 
 func TestHandMemcachedSetPayloadIndependentOfSegments(t *testing.T) {
-	whole := handMemcachedSet(t, "set k 0 0 10\r\n0123456789\r\n")
-	split := handMemcachedSet(t, "set k 0 0 10\r\n01234", "56789\r\n")
+	whole, cmdsWhole := handMemcachedSetEvents(t, "set k 0 0 10\r\n0123456789\r\nget k\r\n")
+	split, cmdsSplit := handMemcachedSetEvents(t, "set k 0 0 10\r\n01234", "56789\r\n", "get k\r\n")
 	if whole != split {
 		t.Fatalf("payload captured for the same set command: %q when sent in one segment, %q when the data block is split", whole, split)
+	}
+	if len(cmdsWhole) != 2 || len(cmdsSplit) != 2 {
+		t.Fatalf("commands reported for \"set\", \"get\": %q in one segment, %q when split (the end of the data block is reported as an empty command)", cmdsWhole, cmdsSplit)
 	}
 }
